@@ -170,7 +170,7 @@ theorem di_step {s : Sys} (hs : SInv s) (hwi : WI s) (hb : BufI s) (hno : s.alg 
         obtain ⟨g, hg, hgt⟩ := atStart_rec s p.wake p.pc o0
         have ha0 : DI (atStart s p.wake p.pc o0) :=
           h.map g (fun r => ⟨(hg r).1, (hg r).2.1, (hg r).2.2.1⟩) hgt
-            (fun o => atStart_planTasks s p.wake p.pc o0 o)
+            (fun o => atStart_planTasks_eq s p.wake p.pc o0 o)
             (fun hd => (congrArg Prod.fst (atStart_sd s p.wake p.pc o0)).trans hd)
         have ha1 := ha0.ucp o0
         have ha3 : ∀ out, DI (atS3 ((atStart s p.wake p.pc o0).updateCurrentPlan o0) out o0) := fun out =>
